@@ -26,6 +26,9 @@ pub struct Case {
     pub addrs: Vec<(bool, Beh)>,
     /// connect timeout in ms
     pub connect_ms: u16,
+    /// the URL names the (single) address as an IP literal instead of a host name that resolves to it
+    #[serde(default)]
+    pub literal: bool,
     /// overall deadline: 0 none, 1 already expired, 2 100 ms (shorter than the race), 3 2 s (longer than the race), 4 500 ms (expires during the race)
     pub deadline: u8,
 }
@@ -183,6 +186,8 @@ fn simulate(case: &Case) -> Sim {
 struct Measured {
     result: Result<String, String>,
     elapsed_ms: i64,
+    /// the call had not returned long after every attempt should have timed out
+    hung: bool,
 }
 
 fn run_once(case: &Case) -> Result<Measured, String> {
@@ -200,30 +205,43 @@ fn run_once(case: &Case) -> Result<Measured, String> {
         live.push(l);
     }
     let addrs: Vec<SocketAddr> = live.iter().map(|l| l.addr()).collect();
-    attohttpc::verif_hooks::set_resolver(Some(Box::new(move |d, _| if d == "race.test" { Some(addrs.clone()) } else { None })));
-    let mut rb = attohttpc::get("http://race.test/").proxy_settings(no_proxy()).connect_timeout(Duration::from_millis(case.connect_ms as u64)).read_timeout(Duration::from_secs(3));
-    rb = match case.deadline {
-        1 => rb.timeout(Duration::from_millis(0)),
-        2 => rb.timeout(Duration::from_millis(100)),
-        3 => rb.timeout(Duration::from_millis(2000)),
-        4 => rb.timeout(Duration::from_millis(500)),
-        _ => rb,
-    };
     for l in &live {
         if let Live::L(l) = l {
             l.arm();
         }
     }
-    let t0 = Instant::now();
-    let res = rb.send();
-    let elapsed_ms = t0.elapsed().as_millis() as i64;
-    let result = match res {
-        Ok(r) => r.text_utf8().map_err(|e| format!("read: {e:?}")),
-        Err(e) => Err(format!("{e:?}")),
+    let url = if case.literal && addrs.len() == 1 { format!("http://{}/", addrs[0]) } else { "http://race.test/".to_string() };
+    let (connect_ms, deadline) = (case.connect_ms, case.deadline);
+    let (tx, rx) = std::sync::mpsc::channel();
+    // the client runs on its own thread (the resolver override is per thread) so that a connect without any bound shows as
+    // "still not back", not as a stuck check
+    std::thread::spawn(move || {
+        attohttpc::verif_hooks::set_resolver(Some(Box::new(move |d, _| if d == "race.test" { Some(addrs.clone()) } else { None })));
+        let mut rb = attohttpc::get(url).proxy_settings(no_proxy()).connect_timeout(Duration::from_millis(connect_ms as u64)).read_timeout(Duration::from_secs(3));
+        rb = match deadline {
+            1 => rb.timeout(Duration::from_millis(0)),
+            2 => rb.timeout(Duration::from_millis(100)),
+            3 => rb.timeout(Duration::from_millis(2000)),
+            4 => rb.timeout(Duration::from_millis(500)),
+            _ => rb,
+        };
+        let t0 = Instant::now();
+        let res = rb.send();
+        let elapsed_ms = t0.elapsed().as_millis() as i64;
+        let result = match res {
+            Ok(r) => r.text_utf8().map_err(|e| format!("read: {e:?}")),
+            Err(e) => Err(format!("{e:?}")),
+        };
+        attohttpc::verif_hooks::set_resolver(None);
+        let _ = tx.send((result, elapsed_ms));
+    });
+    let patience = case.addrs.len() as u64 * case.connect_ms as u64 + 6000;
+    let m = match rx.recv_timeout(Duration::from_millis(patience)) {
+        Ok((result, elapsed_ms)) => Measured { result, elapsed_ms, hung: false },
+        Err(_) => Measured { result: Err("the call had not returned".into()), elapsed_ms: patience as i64, hung: true },
     };
-    attohttpc::verif_hooks::set_resolver(None);
     drop(live);
-    Ok(Measured { result, elapsed_ms })
+    Ok(m)
 }
 
 impl Property for C17 {
@@ -284,25 +302,32 @@ addresses per family. non-trivial = >= 2 addresses with >= 2 different behaviour
                         for (i, f) in fam.iter().enumerate() {
                             addrs.push((*f, b[i]));
                         }
-                        all.push(Case { addrs, connect_ms: 600, deadline: 0 });
+                        all.push(Case { addrs, connect_ms: 600, deadline: 0, literal: false });
                     }
                 }
             }
         }
         // a connect timeout shorter than the race interval: an attempt that times out is one failed attempt, not the end of the race
         for v6_first in [true, false] {
-            all.push(Case { addrs: vec![(v6_first, Beh::BlackHole), (!v6_first, Beh::Accept)], connect_ms: 100, deadline: 0 });
-            all.push(Case { addrs: vec![(v6_first, Beh::BlackHole), (v6_first, Beh::Accept)], connect_ms: 100, deadline: 0 });
-            all.push(Case { addrs: vec![(v6_first, Beh::BlackHole), (!v6_first, Beh::BlackHole), (v6_first, Beh::Accept)], connect_ms: 100, deadline: 0 });
-            all.push(Case { addrs: vec![(v6_first, Beh::BlackHole), (!v6_first, Beh::Refuse), (v6_first, Beh::BlackHole)], connect_ms: 100, deadline: 0 });
+            all.push(Case { addrs: vec![(v6_first, Beh::BlackHole), (!v6_first, Beh::Accept)], connect_ms: 100, deadline: 0, literal: false });
+            all.push(Case { addrs: vec![(v6_first, Beh::BlackHole), (v6_first, Beh::Accept)], connect_ms: 100, deadline: 0, literal: false });
+            all.push(Case { addrs: vec![(v6_first, Beh::BlackHole), (!v6_first, Beh::BlackHole), (v6_first, Beh::Accept)], connect_ms: 100, deadline: 0, literal: false });
+            all.push(Case { addrs: vec![(v6_first, Beh::BlackHole), (!v6_first, Beh::Refuse), (v6_first, Beh::BlackHole)], connect_ms: 100, deadline: 0, literal: false });
+        }
+        // the URL names an address as an IP literal: the connect timeout (and the deadline) bound that single attempt as well
+        for v6 in [true, false] {
+            for beh in [Beh::Accept, Beh::Refuse, Beh::BlackHole] {
+                all.push(Case { addrs: vec![(v6, beh)], connect_ms: 600, deadline: 0, literal: true });
+            }
+            all.push(Case { addrs: vec![(v6, Beh::BlackHole)], connect_ms: 1800, deadline: 4, literal: true });
         }
         // late acceptors: pairs and triples where a success can only arrive after the stagger
         for other in [Beh::Refuse, Beh::BlackHole, Beh::Accept] {
             for v6_late in [true, false] {
-                all.push(Case { addrs: vec![(v6_late, Beh::LateAccept), (!v6_late, other)], connect_ms: 1800, deadline: 0 });
-                all.push(Case { addrs: vec![(!v6_late, other), (v6_late, Beh::LateAccept)], connect_ms: 1800, deadline: 0 });
-                all.push(Case { addrs: vec![(v6_late, Beh::LateAccept), (v6_late, other), (!v6_late, Beh::Refuse)], connect_ms: 1800, deadline: 0 });
-                all.push(Case { addrs: vec![(v6_late, Beh::LateAccept), (!v6_late, other)], connect_ms: 600, deadline: 0 });
+                all.push(Case { addrs: vec![(v6_late, Beh::LateAccept), (!v6_late, other)], connect_ms: 1800, deadline: 0, literal: false });
+                all.push(Case { addrs: vec![(!v6_late, other), (v6_late, Beh::LateAccept)], connect_ms: 1800, deadline: 0, literal: false });
+                all.push(Case { addrs: vec![(v6_late, Beh::LateAccept), (v6_late, other), (!v6_late, Beh::Refuse)], connect_ms: 1800, deadline: 0, literal: false });
+                all.push(Case { addrs: vec![(v6_late, Beh::LateAccept), (!v6_late, other)], connect_ms: 600, deadline: 0, literal: false });
             }
         }
         // deadlines on a representative subset
@@ -315,10 +340,11 @@ addresses per family. non-trivial = >= 2 addresses with >= 2 different behaviour
             }
         }
         let stride = if tier == Tier::Thorough { 1 } else { 9 };
+        // the quick tier samples the product, but always runs the special families (short connect timeout, IP literal)
         Some(Box::new(
             all.into_iter()
                 .enumerate()
-                .filter(move |(i, _)| i % stride == 0)
+                .filter(move |(i, c)| i % stride == 0 || c.literal || c.connect_ms < 200)
                 .map(|(_, c)| c)
                 .enumerate()
                 .filter(move |(i, _)| i % nworkers == worker)
@@ -349,7 +375,7 @@ addresses per family. non-trivial = >= 2 addresses with >= 2 different behaviour
                 // with a 100 ms connect timeout every attempt boundary falls on a multiple of 100 ms, which is where the 100 ms
                 // and 500 ms deadlines lie: whether the next attempt still starts would be a coin toss, so no deadline then
                 let deadline = if connect_ms < 200 { 0 } else { deadline };
-                Case { addrs, connect_ms, deadline }
+                Case { addrs, connect_ms, deadline, literal: false }
             })
             .boxed()
     }
@@ -371,6 +397,12 @@ addresses per family. non-trivial = >= 2 addresses with >= 2 different behaviour
                     std::process::exit(2);
                 }
             };
+            if m.hung {
+                return Outcome::fail(
+                    "C17:no-connect-timeout:hung",
+                    format!("the request was still connecting {} ms after it started (connect timeout {} ms, {} address(es), IP literal in the URL: {})", m.elapsed_ms, case.connect_ms, case.addrs.len(), case.literal),
+                );
+            }
             // R5 upper bounds (re-measured)
             let upper = sim.done_ms + 300;
             let mut too_slow = m.elapsed_ms > upper;
@@ -395,6 +427,7 @@ addresses per family. non-trivial = >= 2 addresses with >= 2 different behaviour
         ctx.label_if(sim.borderline, "borderline-deadline");
         ctx.label_if(sim.bh_before_accept >= 1 && sim.any_accept, "black-hole-before-acceptor");
         ctx.label_if(!sim.any_accept, "no-acceptor");
+        ctx.label_if(case.literal, "ip-literal-in-url");
         ctx.label_if(case.deadline != 0, "with-deadline");
         ctx.label_if(case.addrs.iter().any(|a| a.0) && case.addrs.iter().any(|a| !a.0), "both-families");
 
